@@ -161,6 +161,9 @@ class moduint(object):
     def __rpow__(self, v):
         return v**self.arg
     def __pow__(self, v):
+        if isinstance(v, moduint):
+            cls = self.maxcast(v)
+            return cls(self.arg**v.arg)
         return self.__class__(self.arg**v)
 
 class modint(moduint):
